@@ -390,8 +390,15 @@ def scenario(sseed, kind, mode, res, crash_at=None, second=None, maxlen=60):
                     twin = o
                 old = o
                 o = n2
-                # `reload` fills `trials` in directory-listing order; ties of get_best_trials follow dict order
-                o.trials = dict(sorted(o.trials.items()))
+                # the trial table of a reloaded oracle is in creation order, like that of a process that never stopped (until the
+                # repair of F25 it was in directory-listing order: ties of get_best_trials and the rows the Bayesian model is
+                # fitted on follow the order of this table)
+                if list(o.trials) != [tid for tid in o.start_order if tid in o.trials]:
+                    what = (f"after reload the oracle holds its trials in the order {list(o.trials)}, a process that never stopped has them in creation order "
+                            f"{o.start_order}: whatever iterates over the table (ties among the best trials, the rows the Bayesian model is fitted on) depends on the directory listing")
+                    v = Violation("C08" if after_crash else "C07", what, {"tag": "trial-table-order"})
+                    v.also = [Violation("C12", what, {"tag": "trial-table-order"})]
+                    raise v
                 wrap_pop(o)
                 lines.append(dict(suite="oracle", op="reload"))
                 expect.append("reloaded | " + state_str(o))
